@@ -29,6 +29,13 @@ Proof.
   - apply String.eqb_refl.
 Qed.
 
+Lemma set_elem_eq_refl t : is_container t = false -> set_elem_eq t t = true.
+Proof.
+  intros C. destruct t; try discriminate C; cbn; try apply dyadic_eqb_refl; auto.
+  - apply Bool.eqb_reflx.
+  - apply String.eqb_refl.
+Qed.
+
 Lemma vmatch_scalar_refl n t la s : is_container t = false -> vmatch_f n t t la s = O_match.
 Proof.
   intros C. pose proof (py_eq_scalar_refl t C) as E.
@@ -286,6 +293,13 @@ Qed.
 Lemma Forall2_len {A B} (R : A -> B -> Prop) l1 l2 : Forall2 R l1 l2 -> List.length l1 = List.length l2.
 Proof. induction 1; cbn; auto. Qed.
 
+Lemma Forall2_in_r {A B} (R : A -> B -> Prop) l1 l2 :
+  Forall2 R l1 l2 -> forall b, In b l2 -> exists a, In a l1 /\ R a b.
+Proof.
+  induction 1 as [|a0 b0 r1 r2 H F IH]; intros b; cbn; [tauto|].
+  intros [E|I]; [subst; eauto | destruct (IH b I) as [a [Ia Ra]]; eauto].
+Qed.
+
 Lemma nth_error_nth' {A} (l : list A) i a d : nth_error l i = Some a -> nth i l d = a.
 Proof.
   revert i. induction l as [|x r IH]; intros [|i] H; cbn in *; try discriminate H.
@@ -314,7 +328,7 @@ Proof.
   rewrite H. cbn [negb andb].
   assert (E : forallb (fun x => set_mem x (t0 :: tr)) (t0 :: tr) = true).
   { apply forallb_forall. intros x I. unfold set_mem. apply existsb_exists.
-    exists x. split; auto. apply py_eq_scalar_refl.
+    exists x. split; auto. apply set_elem_eq_refl.
     rewrite forallb_forall in H. specialize (H x I). destruct x; auto; discriminate H. }
   rewrite E. reflexivity.
 Qed.
@@ -411,6 +425,12 @@ Proof.
         destruct (l2o_items_aligned fields _ _ [] [] Fl Eo1 (Forall2_nil _)) as [T' [L [HT' [HL All]]]].
         rewrite HT in HT'. inversion HT'. subst T'.
         inversion Fc as [|? c0 ? crest]. inversion Fl as [|? l0 ? lrest]. subst.
+        assert (Shc : shape_ok (JList (c0 :: crest)) = true).
+        { cbn [shape_ok]. apply forallb_forall. intros cx Icx.
+          destruct (Forall2_in_r _ _ _ Fc cx Icx) as [ox [Iox Sox]].
+          destruct (Eo _ Iox) as [Eok _]. unfold elem_ok in Eok.
+          destruct ox; try discriminate Eok. inversion Sox; subst; [discriminate|reflexivity]. }
+        rewrite Shc. cbn [negb].
         cbn [read_la]. unfold list_to_object. cbn [py_truthy negb py_iter]. rewrite HT, HA, HL.
         pose proof (l2o_items_nodup _ _ _ _ HT eq_refl) as NDT.
         pose proof (l2o_items_entries _ _ _ _ HT) as Ent.
@@ -825,16 +845,6 @@ Section DecKey.
     key_match rec sk lk cfg ak' la k tv = key_match rec sk lk cfg ak la k tv.
   Proof. intros M. unfold key_match. rewrite M. reflexivity. Qed.
 
-  Lemma key_match_present ak la k tv :
-    specified_key lk k = true -> key_match rec sk lk cfg ak la k tv = O_match ->
-    exists v, lookup k ak = Some v.
-  Proof.
-    intros S H. apply specified_key_inv in S. destruct S as [_ [S2 S3]].
-    unfold key_match in H. rewrite S2, S3 in H.
-    destruct (lookup k ak) as [v|]; eauto.
-    destruct (probe_la la k); onomatch H.
-  Qed.
-
   Lemma key_match_as_map_inv ak la k tv v lav fields :
     specified_key lk k = true -> lookup k cfg = Some fields ->
     probe_la la k = LaVal lav -> lookup k ak = Some v ->
@@ -844,6 +854,7 @@ Section DecKey.
   Proof.
     intros S C P Lk H. apply specified_key_inv in S. destruct S as [_ [S2 S3]].
     unfold key_match in H. rewrite S2, P, S3, Lk, C in H. cbn [read_la] in H.
+    destruct (negb (shape_ok v)); [onomatch H|].
     destruct (list_to_object tv fields) as [T| |]; try onomatch H.
     destruct (list_to_object v fields) as [A| |]; try onomatch H.
     destruct (list_to_object lav fields) as [L| |]; try onomatch H.
@@ -888,8 +899,8 @@ Proof.
     destruct (key_match_probe _ _ _ _ _ _ _ _ _ Sp Lv Km) as [lav P].
     destruct (lookup k cfg) as [fields|] eqn:C.
     + destruct (key_match_as_map_inv _ _ _ _ _ _ _ _ _ _ _ Sp C P Lv Km) as [T [A [L [LT [LA [LL R]]]]]].
-      destruct (Mp k tv v fields T A I Sp C Lv LT LA) as [v' [A' [Lv' [LA' DA]]]].
-      rewrite (key_match_as_map _ _ _ _ ak' _ _ _ v' _ _ _ _ Sp C P Lv' LT LA'), LL.
+      destruct (Mp k tv v fields T A I Sp C Lv LT LA) as [v' [A' [Lv' [Sh' [LA' DA]]]]].
+      rewrite (key_match_as_map _ _ _ _ ak' _ _ _ v' _ _ _ _ Sp C P Lv' Sh' LT LA'), LL.
       eapply IH; eauto.
     + rewrite (key_match_plain _ _ _ _ _ _ _ _ _ _ Sp C P Lv) in Km.
       destruct (Pl k tv v I Sp C Lv) as [v' [Lv' Dv]].
@@ -1227,7 +1238,8 @@ Section Ext.
                 else match lookup k ak with Some v => inl (Ret v) | None => inr O_false end)
         as [[cv|e|]|o]; auto.
       destruct (lookup k cfg) as [fields|] eqn:C.
-      + destruct (list_to_object tv fields) as [T|e|] eqn:LT; auto.
+      + destruct (negb (shape_ok cv)); auto.
+        destruct (list_to_object tv fields) as [T|e|] eqn:LT; auto.
         destruct (list_to_object cv fields) as [A|e|]; auto.
         cbn [read_la]. destruct (list_to_object lav fields) as [L|e|]; auto.
         eapply E2; eauto.
